@@ -6,8 +6,7 @@ package trace // import "go.opentelemetry.io/otel/sdk/trace"
 import (
 	"context"
 	crand "crypto/rand"
-	"encoding/binary"
-	"math/rand"
+	"math/rand/v2"
 	"sync"
 
 	"go.opentelemetry.io/otel/trace"
@@ -31,7 +30,7 @@ type IDGenerator interface {
 
 type randomIDGenerator struct {
 	sync.Mutex
-	randSource *rand.Rand
+	randSource *rand.ChaCha8
 }
 
 var _ IDGenerator = &randomIDGenerator{}
@@ -74,8 +73,11 @@ func (gen *randomIDGenerator) NewIDs(ctx context.Context) (trace.TraceID, trace.
 
 func defaultIDGenerator() IDGenerator {
 	gen := &randomIDGenerator{}
-	var rngSeed int64
-	_ = binary.Read(crand.Reader, binary.LittleEndian, &rngSeed)
-	gen.randSource = rand.New(rand.NewSource(rngSeed))
+	// Use all the entropy of the seed: a math/rand (v1) source keeps only 31
+	// bits of it, so that two generators of a process (or of a fleet) replay
+	// the same sequence of IDs with probability 2^-31 per pair.
+	var rngSeed [32]byte
+	_, _ = crand.Read(rngSeed[:])
+	gen.randSource = rand.NewChaCha8(rngSeed)
 	return gen
 }
